@@ -1,0 +1,115 @@
+//go:build verif
+
+/*
+ * Copyright (c) 2025 The XGo Authors (xgo.dev). All rights reserved.
+ *
+ * Licensed under the Apache License, Version 2.0 (the "License");
+ * you may not use this file except in compliance with the License.
+ * You may obtain a copy of the License at
+ *
+ *     http://www.apache.org/licenses/LICENSE-2.0
+ *
+ * Unless required by applicable law or agreed to in writing, software
+ * distributed under the License is distributed on an "AS IS" BASIS,
+ * WITHOUT WARRANTIES OR CONDITIONS OF ANY KIND, either express or implied.
+ * See the License for the specific language governing permissions and
+ * limitations under the License.
+ */
+
+package matcher
+
+import (
+	"fmt"
+	"sync/atomic"
+)
+
+// Verification hook (build tag verif only): every Context counts the matcher steps
+// (successful repetition iterations and rule entries) and the nesting depth of rule
+// references of one matching process. When a budget set by VerifSetBudget is exceeded
+// the matcher panics with a *VerifBudgetError, which turns "this match does not
+// terminate" into a deterministic, recoverable event for test harnesses.
+// Without the tag the calls are empty stubs (see verif_nohook.go).
+
+type verifState struct {
+	steps int64
+	depth int64
+	zero  bool // some successful repetition iteration consumed no token
+}
+
+var verifMaxSteps, verifMaxDepth atomic.Int64 // 0 = unlimited
+
+// VerifHookActive reports whether the verification hook is compiled in.
+func VerifHookActive() bool { return true }
+
+// VerifSetBudget sets the step and depth budgets of all matches started afterwards
+// (0 = unlimited).
+func VerifSetBudget(steps, depth int) {
+	verifMaxSteps.Store(int64(steps))
+	verifMaxDepth.Store(int64(depth))
+}
+
+// VerifSetBudget is the package function VerifSetBudget as a method, so that a harness
+// can reach it through an interface assertion on a compiled rule without a compile-time
+// dependency on this file. It reports true: the hook is active.
+func (p *Var) VerifSetBudget(steps, depth int) bool {
+	VerifSetBudget(steps, depth)
+	return true
+}
+
+// VerifBudgetError is the panic value raised when a budget is exceeded.
+type VerifBudgetError struct {
+	Kind         string // "steps" or "depth"
+	Steps, Depth int64  // counters when the budget was exceeded
+	ZeroProgress bool   // some successful repetition iteration consumed no token: that loop never ends
+	Rule         string // rule being entered (Kind "depth")
+}
+
+func (e *VerifBudgetError) Error() string {
+	return fmt.Sprintf("tpl/matcher: verif %s budget exceeded (steps=%d depth=%d zero-progress=%v rule=%q)",
+		e.Kind, e.Steps, e.Depth, e.ZeroProgress, e.Rule)
+}
+
+// VerifBudgetExceeded exposes the fields to harnesses that only know the method set.
+func (e *VerifBudgetError) VerifBudgetExceeded() (kind string, zeroProgress bool, rule string) {
+	return e.Kind, e.ZeroProgress, e.Rule
+}
+
+func verifCount(ctx *Context, rule string) {
+	s := &ctx.verif
+	s.steps++
+	if max := verifMaxSteps.Load(); max > 0 && s.steps > max {
+		panic(&VerifBudgetError{Kind: "steps", Steps: s.steps, Depth: s.depth, ZeroProgress: s.zero, Rule: rule})
+	}
+}
+
+// verifStep is called after every successful iteration of a repetition.
+func verifStep(ctx *Context, consumed int) {
+	if ctx == nil {
+		return
+	}
+	if consumed == 0 {
+		// the next iteration starts in the same state: this repetition never ends
+		ctx.verif.zero = true
+	}
+	verifCount(ctx, "")
+}
+
+// verifEnter is called when a rule reference starts matching.
+func verifEnter(ctx *Context, p *Var) {
+	if ctx == nil {
+		return
+	}
+	s := &ctx.verif
+	s.depth++
+	if max := verifMaxDepth.Load(); max > 0 && s.depth > max {
+		panic(&VerifBudgetError{Kind: "depth", Steps: s.steps, Depth: s.depth, ZeroProgress: s.zero, Rule: p.Name})
+	}
+	verifCount(ctx, p.Name)
+}
+
+// verifLeave is called when a rule reference has finished matching.
+func verifLeave(ctx *Context) {
+	if ctx != nil {
+		ctx.verif.depth--
+	}
+}
